@@ -581,4 +581,33 @@ example : (dirEntryFromInode 2 1 2 [97] 1).1 = .error .corrupted := by decide
 example : (openDir true 0 300 0 (fun i => if i = 5 then some 0 else none) ⟨1, 0, 0, 3, 5, 6⟩).map (·.state) = .ok .opened := by
   decide
 
+/-! further theorems applied with every hypothesis discharged (the report's "P" rows) -/
+
+/-- `exTree`'s directory entries have references in `[0, 1, 2, 3]` -/
+theorem exTree_refs : ∀ r c, c ∈ exTree.entries r → exTree.isDir c = true → c ∈ [0, 1, 2, 3] := by
+  intro r c h _
+  simp only [exTree] at h
+  split at h
+  · simp at h; rcases h with rfl | rfl <;> decide
+  · split at h
+    · simp at h; subst h; decide
+    · simp at h
+
+example : tarWalk true exTree ([0, 1, 2, 3].length + 1) 0 ≠ .error .fuel := dir_rec_terminates exTree [0, 1, 2, 3] exTree_refs 0
+example : tarWalkV exTree 4096 ([0, 1, 2, 3].length + 1) 0 ≠ .error .fuel := dir_rec_v_terminates exTree 4096 [0, 1, 2, 3] exTree_refs 0
+example : 3 ≤ listingEntries exTree [0, 1, 2, 3] :=
+  fill_dir_nodes_linear exTree 4096 5 0 3 [0, 1, 2, 3] (by decide) exTree_refs (by decide) (by decide)
+example : 3 ≤ (exTree.entries 0).length + listingEntries exTree [0, 1, 2, 3] :=
+  dir_rec_nodes_linear exTree 4096 5 0 3 [0, 1, 2, 3] (by decide) exTree_refs (by decide)
+/-- key, value and the whole pair of an xattr with an out-of-line value, from a reader positioned by `seek` -/
+example :
+    let m := (seek exCfg MetaSt.init 96 0).st
+    let a : KvAns := ⟨0x101, 3, 7, ((200 : UInt64) <<< 16) ||| 5⟩
+    (∀ x ∈ (kvReadKey exCfg a m).acc, x.inBounds) ∧ (∀ x ∈ (kvReadValue exCfg 96 100000 a m).acc, x.inBounds) ∧
+      (∀ x ∈ (kvRead exCfg 96 100000 a m).acc, x.inBounds) := by
+  intro m a
+  have hc : MetaCodecOk exCfg := by intro b n h; simp [exCfg] at h
+  have hm : m.dataUsed.toNat ≤ metaCap := by decide
+  exact ⟨(xattr_read_key_safe exCfg hc a m hm).1, (xattr_read_value_safe exCfg hc 96 100000 a m hm).1,
+    (xattr_read_safe exCfg hc 96 100000 a m hm).1⟩
 end Sqfs.C05
